@@ -1068,6 +1068,11 @@ func c05RunE2e(rep *hx.Report, orc *hx.Oracle, rng *hx.RNG, n int, t *testing.T)
 			if !rng.Chance(1, 8) {
 				h.IPAddress = net.IP(hx.Pick(rng, addrPool).AsSlice())
 			}
+			if rng.Chance(1, 4) {
+				// a hop answered from the target's address: it is the destination hop only when the reply
+				// proved arrival (IsDest) — e.g. a time-exceeded sourced from the target address is not
+				h.IPAddress = net.ParseIP("192.0.2.9")
+			}
 			c.Hops = append(c.Hops, h)
 		}
 		var seenMin, seenMax int
@@ -1077,6 +1082,7 @@ func c05RunE2e(rep *hx.Report, orc *hx.Oracle, rng *hx.RNG, n int, t *testing.T)
 				return nil, errInjected
 			}
 			run := &result.TracerouteRun{}
+			run.Destination.IPAddress = net.ParseIP("192.0.2.9")
 			for k := range c.Hops {
 				h := c.Hops[k]
 				run.Hops = append(run.Hops, &h)
